@@ -131,6 +131,9 @@ def le128_sym(eng, b, lo, hi):
     if "le128_shift_ext" not in eng.disabled_facts:
         for B, alo, ahi, delta in agreements(eng, A):       # LEMMA le128_shift_ext
             eng.assume(z3.Implies(z3.And(alo <= lo_t, hi_t <= ahi), t == le128_f(B, lo_t + delta, hi_t + delta)))
+            # the piece's own definitional unfolding and store-frame facts (the piece may be a Store chain the
+            # invariants speak about): one step, on the shifted window
+            le128_unfold(eng, B, z3.simplify(lo_t + delta), z3.simplify(hi_t + delta))
     return VInt(t)
 
 
